@@ -33,8 +33,10 @@ import (
 	"log"
 	"net"
 	"os"
+	"os/exec"
 	"path/filepath"
 	"strings"
+	"sync"
 	"testing"
 	"time"
 
@@ -48,6 +50,8 @@ import (
 )
 
 const (
+	c03KnownPlanEntry   = "C03/lost-entry/reap-plan-not-durable"
+	c03KnownPlanWhat    = "REAP_PLAN is renamed into place without syncing its directory before the plan's destructive operations start; a power loss that loses the entry leaves a half-reaped store without a plan and the node cannot start"
 	c03KnownFingerprint = "C03/fingerprint-before-snapshot-finalised"
 	c03KnownWhat        = "clean_snapshot fingerprint is published before the snapshot directory is finalised; a crash in between restarts on the fast path with the older snapshot index and re-applies log entries"
 )
@@ -171,7 +175,7 @@ func c03GenHistory(rt *rapid.T) c03History {
 		h.Final = c03Op{Kind: "C", SnapOnClose: true}
 	}
 	if vstat.Thorough() {
-		h.NestStride = rapid.IntRange(1, 3).Draw(rt, "nestStride")
+		h.NestStride = rapid.IntRange(2, 4).Draw(rt, "nestStride")
 	} else {
 		h.NestStride = rapid.IntRange(10, 16).Draw(rt, "nestStride")
 	}
@@ -310,6 +314,7 @@ type c03Restarted struct {
 func c03Restart(dir string, record func(fn func())) c03Restarted {
 	var out c03Restarted
 	var node *c03Node
+	c03Mark()
 	start := func() {
 		// Store.Open would terminate the whole process (log.Fatal in the
 		// snapshot store) on a checksum mismatch; run the identical open +
@@ -431,7 +436,13 @@ func (r *c03Run) judge(res c03Restarted, label, kind, where, stateDir string, ne
 			return false
 		}
 		sig := fmt.Sprintf("C03/restart-%s-failed/%s/%s", res.stage, kind, where)
-		if r.rec.KnownHit(sig, "node does not restart after a crash") {
+		what := "node does not restart after a crash"
+		if strings.HasPrefix(kind, "lost-") {
+			if _, err := os.Stat(filepath.Join(stateDir, snapshotsDirName, "REAP_PLAN.tmp")); err == nil {
+				sig, what = c03KnownPlanEntry, c03KnownPlanWhat
+			}
+		}
+		if r.rec.KnownHit(sig, what) {
 			return false
 		}
 		r.rt.Fatalf("%s", r.rec.Violation(sig, "history {%s}, crash state %s: restart failed at %s: %v; state: %s", r.history, label, res.stage, res.err, vcrash.Listing(stateDir)))
@@ -517,6 +528,7 @@ func (r *c03Run) aftermath(label, where, stateDir string) {
 				return
 			}
 		}
+		c03Current = r.history + " :: crash state " + label + ", aftermath restart " + mode
 		res := c03Restart(r.dir, nil)
 		if res.err != nil {
 			fail("restart-"+mode+"-"+res.stage, res.err)
@@ -573,9 +585,84 @@ func c03Short(s string) string {
 	return strings.Join(out, "\n") + "\n"
 }
 
+// c03Current describes the restart in progress; it is written to the marker
+// file so that the outer process can name the crash state if rqlite
+// terminates the process (log.Fatal) during that restart.
+var c03Current string
+
+func c03Mark() {
+	if p := os.Getenv("VERIF_C03_MARKER"); p != "" {
+		os.WriteFile(p, []byte(c03Current), 0o644)
+	}
+}
+
+const c03CrashRule = "one case = (history, crash state); histories of 2-11 ops (write batches of non-idempotent statements, full/incremental snapshots with/without log truncation, FULL_NEEDED marks, reaps, clean close/reopen, crash-restarts at idle) ending in a snapshot, reap or close; crash states: the whole data directory at every pre/post event of every mutating os call of the final operation, torn-file / interrupted-RemoveAll derivations, crash at idle after the history, and (nested, sampled) every event of the restart itself; non-trivial = at least one acknowledged write and the crash lies inside the final operation (state differs from the state before it); distinct by history + crash point label"
+
+// TestVerif_C03_Crash runs the enumeration in an inner process: rqlite ends the
+// process in several start-up failure paths (log.Fatal), and a node that kills
+// itself while restarting from a crash state must be reported as a failed
+// restart, not take the check down as "inconclusive".
 func TestVerif_C03_Crash(t *testing.T) {
-	rec := vstat.New(t, "C03", "crash",
-		"one case = (history, crash state); histories of 2-11 ops (write batches of non-idempotent statements, full/incremental snapshots with/without log truncation, FULL_NEEDED marks, reaps, clean close/reopen, crash-restarts at idle) ending in a snapshot, reap or close; crash states: the whole data directory at every pre/post event of every mutating os call of the final operation, torn-file / interrupted-RemoveAll derivations, crash at idle after the history, and (nested, sampled) every event of the restart itself; non-trivial = at least one acknowledged write and the crash lies inside the final operation (state differs from the state before it); distinct by history + crash point label")
+	self := os.Getenv("VERIF_SELF")
+	if os.Getenv("VERIF_C03_INNER") != "" || self == "" {
+		c03CrashInner(t)
+		return
+	}
+	marker := filepath.Join(os.TempDir(), fmt.Sprintf("c03-marker-%d", os.Getpid()))
+	defer os.Remove(marker)
+	cmd := exec.Command(self, os.Args[1:]...)
+	cmd.Env = append(os.Environ(), "VERIF_C03_INNER=1", "VERIF_C03_MARKER="+marker)
+	tail := &c03Tail{max: 6000}
+	cmd.Stdout = io.MultiWriter(os.Stdout, tail)
+	cmd.Stderr = io.MultiWriter(os.Stderr, tail)
+	err := cmd.Run()
+	if err == nil {
+		return
+	}
+	out := tail.String()
+	if strings.Contains(out, "VERIF-VIOLATION") || strings.Contains(out, "[rapid] failed") || strings.Contains(out, "[rapid] panic") || strings.Contains(out, "test timed out") {
+		t.Fatalf("inner process failed: %v", err)
+	}
+	state, _ := os.ReadFile(marker)
+	if len(state) == 0 {
+		t.Fatalf("inner process exited (%v) before any restart was attempted", err)
+	}
+	rec := vstat.New(t, "C03", "crash", c03CrashRule)
+	rec.Case(true, string(state))
+	if len(out) > 1500 {
+		out = out[len(out)-1500:]
+	}
+	sig := "C03/restart-terminated-process"
+	if rec.KnownHit(sig, "rqlite terminates the process while restarting from a crash state") {
+		return
+	}
+	t.Fatalf("%s", rec.Violation(sig, "%s: the restarting node terminated the process (%v); last output: %s", state, err, strings.TrimSpace(out)))
+}
+
+type c03Tail struct {
+	mu  sync.Mutex
+	buf []byte
+	max int
+}
+
+func (w *c03Tail) Write(p []byte) (int, error) {
+	w.mu.Lock()
+	defer w.mu.Unlock()
+	w.buf = append(w.buf, p...)
+	if len(w.buf) > 2*w.max {
+		w.buf = append([]byte{}, w.buf[len(w.buf)-w.max:]...)
+	}
+	return len(p), nil
+}
+
+func (w *c03Tail) String() string {
+	w.mu.Lock()
+	defer w.mu.Unlock()
+	return string(w.buf)
+}
+
+func c03CrashInner(t *testing.T) {
+	rec := vstat.New(t, "C03", "crash", c03CrashRule)
 	rapid.Check(t, func(rt *rapid.T) {
 		h := c03GenHistory(rt)
 		root, err := os.MkdirTemp("", "c03-")
@@ -628,6 +715,7 @@ func TestVerif_C03_Crash(t *testing.T) {
 				rt.Skip("restore failed")
 			}
 			rec.Case(true, r.history+"/idle-"+tag)
+			c03Current = r.history + " :: crash at idle " + tag
 			res := c03Restart(dir, nil)
 			r.judge(res, "idle-"+tag, "idle", "idle", saved, false)
 			os.RemoveAll(saved)
@@ -710,6 +798,7 @@ func TestVerif_C03_Crash(t *testing.T) {
 			restartIdle("end")
 		} else {
 			rec.Case(true, r.history+"/after-close")
+			c03Current = r.history + " :: after close"
 			res := c03Restart(dir, nil)
 			r.judge(res, "after-close", "idle", "idle", dir, false)
 		}
@@ -725,6 +814,7 @@ func TestVerif_C03_Crash(t *testing.T) {
 			if err := vcrash.ReplaceTree(cs.Dir, dir); err != nil {
 				rt.Skip("restore failed")
 			}
+			c03Current = r.history + " :: crash state " + cs.Label + " (" + where + "): " + vcrash.Listing(cs.Dir)
 			res := c03Restart(dir, nil)
 			held := r.judge(res, cs.Label, cs.Kind, where, cs.Dir, false)
 			if held && nontrivial && (inside-1)%h.NestStride == (h.NestOff+1)%h.NestStride {
@@ -746,10 +836,37 @@ func TestVerif_C03_Crash(t *testing.T) {
 					if err := vcrash.ReplaceTree(ns.Dir, dir); err != nil {
 						rt.Skip("restore failed")
 					}
+					c03Current = r.history + " :: crash state " + cs.Label + ">" + ns.Label + ": " + vcrash.Listing(ns.Dir)
 					res := c03Restart(dir, nil)
 					r.judge(res, cs.Label+">"+ns.Label, ns.Kind, "restart:"+c03Where(ns.Ev, dir), ns.Dir, true)
 				}
 				nrec.Cleanup()
+			}
+		}
+		// Power loss: directory entries not yet made durable are lost (creates and
+		// renames since the directory was last fsynced are undone, newest first).
+		seen := map[string]bool{}
+		for _, cs := range recd.States {
+			seen[vcrash.TreeSig(cs.Dir)] = true
+		}
+		lostStride := 1
+		if !vstat.Thorough() {
+			lostStride = max(h.NestStride/3, 2)
+		}
+		lostOff := os.Getenv("VERIF_C03_LOST_ENTRIES") == "0" // can be switched off in checks.d (unit env)
+		for i, cs := range recd.States {
+			if lostOff || cs.Kind != "event" || i%lostStride != h.NestOff%lostStride {
+				continue
+			}
+			for _, ls := range recd.LostEntryStates(cs, seen) {
+				rec.Case(true, r.history+"/"+ls.Label)
+				if err := vcrash.ReplaceTree(ls.Dir, dir); err != nil {
+					rt.Skip("restore failed")
+				}
+				c03Current = r.history + " :: crash state " + ls.Label + ": " + vcrash.Listing(ls.Dir)
+				res := c03Restart(dir, nil)
+				r.judge(res, ls.Label, ls.Kind, c03Where(cs.Ev, dir), ls.Dir, false)
+				os.RemoveAll(ls.Dir)
 			}
 		}
 		recd.Cleanup()
